@@ -424,6 +424,17 @@ class Esp:
                                     env2[dl] = ("int", isnone if pol == 1 else 1 - isnone)
                                 else:
                                     env2[dl] = ("is_none_of" if pol == 1 else "is_some_of", src)
+                    if c.callee and c.callee.get("def", "").endswith(("Option::<T>::take", "mem::take")) and c.args:
+                        # `x.take()`: the result is what x held, x is None afterwards
+                        from .analysis import ref_target
+                        src = ref_target(body, c.args[0])
+                        sv = env2.get(src) if src is not None else None
+                        if sv and sv[0] == "variant" and str(body.ty(src).get("s", "")).startswith(("std::option::Option", "core::option::Option")):
+                            env2 = dict(env2)
+                            if dl is not None:
+                                env2[dl] = sv
+                                self.flags.add(dl)
+                            env2[src] = ("variant", sv[1], "None") if len(sv) == 3 else sv
                     for ts2 in spec.on_call(pt, c, ts, env):
                         if t["target"] is not None:
                             self._merge(Point(t["target"], 0), ts2, env2, dq)
